@@ -617,6 +617,10 @@ def run(ctx):
     rule_duplicate_label(ctx)
     c03.rule_exit_status(ctx, "C02.6")
     dropflow.rule_consumed(ctx, "C02.10")
+    import parseval
+
+    ctx.rule("C02.14", "parse_files, evaluated on projects of up to three files (each parsed with warnings, with or without a main component, or failed; archive construction succeeding or not): every warning and error is in the collection returned, `multiple main components` is reported exactly when two parsed files - named or included - define one, the archive errors and library reports arrive, and desugaring runs on what was built")
+    parseval.rule(ctx, "C02.14")
     import c05
     import c19
 
